@@ -89,6 +89,10 @@ def term_expr(rng, depth, allow_pipe=True):
     r = rng.random()
     if depth <= 0 or r < 0.22:
         c = rng.random()
+        if HOSTILE[0] and c < 0.06:
+            # the subset notation away from the response (a predictor, an effect, a grouping factor): refused,
+            # or at least the level is not silently dropped
+            return ("var", rng.choice(NAMES[:7]), rng.choice(["l", "u", "lv l", "1"]))
         if c < 0.5:
             return ("var", rng.choice(NAMES), None)
         if c < 0.62:
@@ -101,6 +105,10 @@ def term_expr(rng, depth, allow_pipe=True):
     if r < 0.38 and allow_pipe:
         # now and then a group-specific term inside either side of another one: refused, or nothing of it is dropped
         return ("bin", "|", term_expr(rng, depth - 1, rng.random() < 0.15), term_expr(rng, depth - 1, rng.random() < 0.1))
+    if HOSTILE[0] and r < 0.395 and depth >= 2:
+        # a whole formula with its own ~ in parentheses as an operand: refused, or its response is not lost
+        inner = ("bin", "~", ("var", rng.choice(["y", "resp"]), None), term_expr(rng, depth - 2, allow_pipe))
+        return ("bin", rng.choice(["+", "-", ":", "*", "/"]), *rng.sample([inner, term_expr(rng, depth - 1, allow_pipe)], 2))
     if r < 0.43:
         if rng.random() < 0.2:
             # exponents the algebra has no meaning for: refused, or at least not silently dropped
@@ -129,9 +137,16 @@ def formula_ast(rng, depth):
     return ("bin", "~", lhs, rhs)
 
 
+HOSTILE = [False]
+
+
 def sentence(rng, depth=None):
-    """(text with minimal parentheses, the generating AST)."""
+    """(text with minimal parentheses, the generating AST).  One sentence in seven may contain the constructs
+    that are refused rather than interpreted (a level away from the response, a ~ inside parentheses)."""
     depth = depth if depth is not None else rng.choice([1, 2, 2, 3, 3, 4, 5, 6, 8])
+    HOSTILE[0] = rng.random() < 0.15
+    if HOSTILE[0]:
+        depth = min(depth, 4)
     ast = formula_ast(rng, depth)
     return G.minimal(ast), ast
 
